@@ -1,14 +1,25 @@
 #!/bin/bash
-# ./seed_eval.sh Cxx [check ids...] : verify a seeded change in a scratch worktree, then run the check(s) against /repo with the patch applied
+# ./seed_eval.sh Cxx [check ids...] : verify a seeded change in a scratch worktree, then run the check(s) against /repo with the patch applied.
+# SEED_ISOLATED=1: do not touch /repo (e.g. while a long run is reading it); the checks import numqi from the patched scratch worktree
+# through PYTHONPATH instead (not valid for C08's CrossHair leg, which reads /repo/python directly).
 set -u
 id=$1; shift; checks=${@:-$id}
 src=/tmp/seed_$id; dst=/verif/seeded/$id
 mkdir -p $dst; cp $src/patch.diff $src/demo.py $dst/ 2>/dev/null; cp $src/meta.json $dst/meta_agent.json 2>/dev/null
-wt=/tmp/verify_$id; rm -rf $wt; git -C /repo worktree add -q --detach $wt HEAD
+wt=/tmp/verify_$id; git -C /repo worktree remove --force $wt 2>/dev/null; rm -rf $wt; git -C /repo worktree add -q --detach $wt HEAD
 cp /repo/python/numqi/_version.py $wt/python/numqi/ 2>/dev/null
 ( cd $wt && PYTHONPATH=$wt/python timeout 900 /venv/bin/python $dst/demo.py >/tmp/demo_clean_$id.log 2>&1; echo "demo on clean tree: exit $?" )
 ( cd $wt && git apply $dst/patch.diff && PYTHONPATH=$wt/python timeout 900 /venv/bin/python $dst/demo.py >/tmp/demo_mut_$id.log 2>&1; echo "demo with patch: exit $?"; tail -3 /tmp/demo_mut_$id.log )
-git -C /repo worktree remove --force $wt
-git -C /repo apply $dst/patch.diff || { echo "patch does not apply to /repo"; exit 3; }
-for c in $checks; do ( cd /verif && timeout 3000 ./check $c > /tmp/seedcheck_${id}_$c.log 2>&1; echo "check $c on mutated /repo: exit $?"; grep -E "^VIOLATION|^\[C" /tmp/seedcheck_${id}_$c.log | head -4 | cut -c1-300 ); done
-git -C /repo checkout -- . ; git -C /repo status --short | head -3
+run_checks() {
+  for c in $checks; do ( cd /verif && timeout 3000 ./check $c > /tmp/seedcheck_${id}_$c.log 2>&1; echo "check $c on mutated tree: exit $?"; grep -E "^VIOLATION|^\[C" /tmp/seedcheck_${id}_$c.log | head -4 | cut -c1-300 ); done
+}
+if [ "${SEED_ISOLATED:-0}" = 1 ]; then
+  PYTHONPATH=$wt/python run_checks
+  git -C /repo worktree remove --force $wt
+  for c in $checks; do git -C /verif checkout -- evidence/$c.json 2>/dev/null; done
+else
+  git -C /repo worktree remove --force $wt
+  git -C /repo apply $dst/patch.diff || { echo "patch does not apply to /repo"; exit 3; }
+  run_checks
+  git -C /repo checkout -- . ; git -C /repo status --short | head -3
+fi
